@@ -44,6 +44,21 @@ type linForm struct {
 	coeff map[string]*big.Int
 }
 
+// Sealed drops the linear form: the term is treated as an atom by Add/Sub (array indices keep
+// the shape base+atom that quantifier triggers match).
+func (t Term) Sealed() Term { return Term{S: t.S, Sort: t.Sort} }
+
+// sameTerm compares modulo linear arithmetic.
+func sameTerm(a, b Term) bool {
+	if a.S == b.S {
+		return true
+	}
+	if a.Sort != SInt || b.Sort != SInt {
+		return false
+	}
+	return linTerm(linOf(a)).S == linTerm(linOf(b)).S
+}
+
 func linOf(t Term) *linForm {
 	if t.lin != nil {
 		return t.lin
@@ -148,6 +163,9 @@ func BoolLit(b bool) Term {
 func litVal(t Term) (*big.Int, bool) {
 	if t.Sort != SInt {
 		return nil, false
+	}
+	if t.lin != nil && len(t.lin.coeff) == 0 {
+		return t.lin.k, true
 	}
 	s := t.S
 	neg := false
